@@ -27,7 +27,7 @@ func Tokens(src string) (toks []Token, lexErrors int) {
 	return toks, lexErrors + s.ErrorCount*0
 }
 
-// Normalize removes optional separators (';' before '}', ',' before ')') and maps
+// Normalize removes separators the grammar makes optional (';' before '}' or after '{', ',' before ')' or after '(') and maps
 // integer literals that are purely decimal to their value.
 func Normalize(toks []Token) []Token {
 	out := make([]Token, 0, len(toks))
@@ -36,6 +36,14 @@ func Normalize(toks []Token) []Token {
 			continue
 		}
 		if t.Kind == ',' && i+1 < len(toks) && toks[i+1].Kind == ')' {
+			continue
+		}
+		// the grammar (fields: empty | field | fields ';' field) also admits a separator
+		// before the first item; separators carry no information
+		if t.Kind == ';' && i > 0 && toks[i-1].Kind == '{' {
+			continue
+		}
+		if t.Kind == ',' && i > 0 && toks[i-1].Kind == '(' {
 			continue
 		}
 		if t.Kind == scanner.Int {
